@@ -4,14 +4,15 @@ import (
 	"fmt"
 	"math"
 	"runtime/debug"
+	nodepoolhash "sigs.k8s.io/karpenter/pkg/controllers/nodepool/hash"
 	"sort"
 	"strings"
 
 	corev1 "k8s.io/api/core/v1"
 
 	v1 "sigs.k8s.io/karpenter/pkg/apis/v1"
-	"sigs.k8s.io/karpenter/pkg/operator/options"
 	provscheduling "sigs.k8s.io/karpenter/pkg/controllers/provisioning/scheduling"
+	"sigs.k8s.io/karpenter/pkg/operator/options"
 	"sigs.k8s.io/karpenter/pkg/scheduling"
 
 	"verif/internal/enum"
@@ -313,7 +314,7 @@ func keysOf(m map[string]bool) []string {
 func init() {
 	register("C13", "exploration", func(r *ev.Rec) {
 		r.Rule = "(a) every requirement in the closure (atoms, pairs, triples under Intersection) of the operator/value/bound alphabet is serialized with Requirements.NodeSelectorRequirements and re-evaluated by the label-set oracle on the witness universe; " +
-			"(b) scheduler worlds (as C01) plus every NodePool whose single requirement on a custom / provider key is accepted by the real RuntimeValidate, x pods constraining that key: the NodeClaim observed at the API create is compared key by key with the scheduler's in-memory requirements, its instance-type list with the options and minValues floors, its requests with pods + least daemon overhead, its labels/taints/hash with the template; panics are caught and reported; (b3) NodePools with a minValues floor on instance-type / zone / arch / provider keys x a launch-list limit (MaxInstanceTypes) of 1 or 2 x pods x both policies: the TRUNCATED list must still meet every floor under Strict. " +
+			"(b) scheduler worlds (as C01) plus every NodePool whose single requirement on a custom / provider key is accepted by the real RuntimeValidate, x pods constraining that key: the NodeClaim observed at the API create is compared key by key with the scheduler's in-memory requirements, its instance-type list with the options and minValues floors, its requests with pods + least daemon overhead, its labels/taints/hash with the template; panics are caught and reported; (b4) the NodePool template edited between the scheduling decision and CreateNodeClaims: labels, taints and hash of the NodeClaim must all describe the template it was decided from; (b3) NodePools with a minValues floor on instance-type / zone / arch / provider keys x a launch-list limit (MaxInstanceTypes) of 1 or 2 x pods x both policies: the TRUNCATED list must still meet every floor under Strict. " +
 			"non-trivial = distinct requirement with a partially admitting serialization, or distinct (case, created NodeClaim)"
 		r.Assumptions = []string{"minValues floors are recomputed from the harness's catalog description", "NodePool.Hash() is used to compare the annotation (its own correctness is C15)"}
 		c13Serialization(r)
@@ -393,6 +394,54 @@ func init() {
 					l.Sample(map[string]any{"case": desc, "created": out.Digest})
 				}
 			}()
+		})
+		// (b4) the NodePool template is EDITED between the scheduling decision and the creation of the NodeClaims (and the
+		// hash controller re-stamps the NodePool): the NodeClaim still carries the labels / taints of the template it was
+		// decided from, so its hash annotation must be the hash of THAT template
+		b4Shapes := []string{"small", "zone-a-selector", "large"}
+		enum.Run(r, enum.Size(len(b4Shapes), 3), func(idx int64, l *ev.Local) {
+			d := enum.Odo(idx, len(b4Shapes), 3)
+			np := world.NodePool("default", labelMod("env", "prod"))
+			c := SchedCase{Catalog: "K1", MinV: options.MinValuesPolicyStrict, Pref: options.PreferencePolicyRespect, Workers: 1}
+			w := world.New(world.Options{})
+			env := &SchedEnv{W: w, Case: c, Catalog: catalogs["K1"], Volumes: map[string][]oracle.Volume{}, Pools: []*v1.NodePool{np.DeepCopy()}}
+			w.CP.Catalog[""] = world.BuildCatalog(env.Catalog)
+			w.Add(world.NodeClass(), np)
+			sh := podShapes[shapeIdx(b4Shapes[d[0]])]
+			p := world.Pod("p0", sh.cpu, sh.mods...)
+			env.Pending = []*corev1.Pod{p}
+			w.Add(p)
+			w.SyncCluster()
+			edit := []string{"label", "taint", "label+hash-controller"}[d[1]]
+			env.Between = func() {
+				cur := &v1.NodePool{}
+				must(w.Raw.Get(w.Ctx, clientKey("", "default"), cur))
+				if strings.HasPrefix(edit, "label") {
+					cur.Spec.Template.Labels["env"] = "dev"
+				} else {
+					cur.Spec.Template.Spec.Taints = append(cur.Spec.Template.Spec.Taints, corev1.Taint{Key: "added-later", Effect: corev1.TaintEffectNoSchedule})
+				}
+				w.EnvUpdate(cur)
+				if strings.HasSuffix(edit, "hash-controller") {
+					must(w.Raw.Get(w.Ctx, clientKey("", "default"), cur))
+					_, _ = nodepoolhash.NewController(w.Client, w.CP).Reconcile(w.Ctx, cur)
+				}
+			}
+			out := env.runPass(explore.Replay(nil), 1)
+			l.Eval()
+			if out.Err != nil {
+				l.Outcome("schedule-error")
+				return
+			}
+			desc := fmt.Sprintf("pod %s; NodePool template edited (%s) between the scheduling decision and CreateNodeClaims", sh.name, edit)
+			viol, n := env.judgeLaunchRequest(out)
+			if n > 0 {
+				l.NontrivialH(ev.H("b4/" + desc))
+				l.Outcome("template edited before create: nodeclaim-created")
+			}
+			for _, v := range viol {
+				l.Violation(v.Sig, v.Msg+"  ["+desc+"]", map[string]any{"case": desc})
+			}
 		})
 		// (b3) truncation x minValues: the launch list is cut to MaxInstanceTypes cheapest types AFTER which every minValues
 		// floor (on any key) must still hold under Strict
